@@ -196,8 +196,10 @@ func c16Rand(d *vCtx) error {
 		cases = append(cases, c16RandCase(rng, []int{0, 3, 12, 48}[i%4]))
 	}
 	for i := 0; i < nlong; i++ {
+		c16ForceFull = i%8 == 2 // some payloads of the full 4 KiB
 		cases = append(cases, c16RandCase(rng, []int{300, 1000, 3000}[i%3]))
 	}
+	c16ForceFull = false
 	var mu sync.Mutex
 	var all []c16Mismatch
 	runs, maxlen := 0, 0
